@@ -22,7 +22,7 @@ LEVEL = "exploration"
 TECHNIQUE = "runtime differential monitor across container formats and delivery channels + post-conditions on the spreadsheet readers"
 RULE = ("cases = (abstract workbook, container, channel); each compared against the dict rendering of the same workbook; workbooks: "
         "W-core forms, typed-cell variants (int/float/bool/NBSP/outer whitespace), empty-run variants (1/59/60 blank rows, 1/19/20 blank "
-        "columns, trailing blanks), external_choices forms, repo fixtures re-rendered xls->xlsx; non-trivial = reference converted; "
+        "columns, trailing blanks), the typed workbook re-encoded as other xlsx producers write it (inline strings, rich-text runs, formula cells with cached values, no dimension), external_choices forms, repo fixtures re-rendered xls->xlsx; non-trivial = reference converted; "
         "distinct = distinct (form signature, container, channel, variant)")
 ASSUMPTIONS = ["openpyxl writes what it is given; the BIFF8 writer is validated against xlrd in setup (vlib.selftest)",
                "md/csv cannot carry blank rows, typed cells, NBSP normalisation or newlines: they take part in the content-equivalence part only"]
@@ -31,7 +31,8 @@ ASSUMPTIONS = ["openpyxl writes what it is given; the BIFF8 writer is validated 
 def plan(tier, seed):
     n = 260 if tier == "quick" else 5000
     return {"shards": 16, "timeout": 900 if tier == "quick" else 3600, "n": n,
-            "floors": {"renderings_compared": n * 8, "reader_postconditions": n, "empty_run_cases": 60, "distinct": 100}}
+            "floors": {"renderings_compared": n * 8, "reader_postconditions": n, "empty_run_cases": 60, "distinct": 100,
+                       "foreign_encodings_compared": n}}
 
 
 def base_form(rng, i):
@@ -227,6 +228,24 @@ def run_shard(ctx):
         ts = typify(sheets, rng)
         compare_all(ctx, form, ts, sig, "typed", ["xlsx", "xls"], rng)
         reader_postconditions(ctx, ts, form, "typed")
+        # (2b) the same typed workbook as other producers encode it (inline strings, rich-text runs with phonetic text, formula cells
+        #      with cached values, no <dimension>, CR LF between rows): every encoding must read like the openpyxl encoding of the cells
+        if i % 3 == 0 or ctx.tier == "thorough":
+            ref_t = drive.call_convert(render.to_dict(ts), **dict(form.args))
+            if ref_t.ok or ref_t.exc_is_pyxform:
+                base_x = render.to_xlsx(ts, typed=True)
+                for st in render.FOREIGN_XLSX_STYLES:
+                    fx = render.xlsx_foreign(base_x, st)
+                    ch = rng.choice(["bytes", "bytesio", "bytes_implicit"])
+                    import io as _io
+                    o = (drive.call_convert(fx, file_type=".xlsx", **dict(form.args)) if ch == "bytes" else
+                         drive.call_convert(_io.BytesIO(fx), file_type=".xlsx", **dict(form.args)) if ch == "bytesio" else drive.call_convert(fx, **dict(form.args)))
+                    ctx.ctr("foreign_encodings_compared")
+                    ctx.case(sig=f"{sig}|xlsx-{st}|{ch}|typed")
+                    d = outcome_diff(ref_t, o)
+                    if d:
+                        ctx.viol(f"differs:xlsx:foreign-encoding:{st}:{d[0]}", f"[xlsx/{st}/{ch}] the same cells written as another producer writes them "
+                                 f"differ from the dict reference in {d[0]}: {d[1]}"[:900], common.witness(form, fmt="xlsx", channel=ch, variant=f"foreign={st}", sheets=_jsonable(ts)))
         # (2a) one column holding boolean-typed and number-typed cells of equal value (TRUE beside 1, FALSE beside 0): each cell keeps its own text
         if i % 4 == 1:
             mx = {name: (list(h), [list(r) for r in rows]) for name, (h, rows) in sheets.items()}
